@@ -34,7 +34,8 @@ def schema_plan(c):
     plan = []
     for k in range(n):
         size = [3, 6, 10, 5, 14, 8][k % 6]
-        plan.append(("r%d" % k, c.rng.next(), size, k % 3 != 2))
+        # sanity off for every third schema; TL2 code (--tl2WhiteList=*) for all but those (generated TL1 code differs with and without it)
+        plan.append(("r%d" % k, c.rng.next(), size, k % 3 != 2, k % 3 != 2))
     return plan
 
 
@@ -72,24 +73,24 @@ def run(c):
         seen = set()
         for f in c.replay.get("failures", []):
             i = f.get("input")
-            if isinstance(i, dict) and "schema_seed" in i and (i["schema_seed"], i["size"], i["sanity"]) not in seen:
-                seen.add((i["schema_seed"], i["size"], i["sanity"]))
-                plan.insert(0, ("p%d" % len(seen), i["schema_seed"], i["size"], i["sanity"]))
+            if isinstance(i, dict) and "schema_seed" in i and (i["schema_seed"], i["size"], i["sanity"], i.get("tl2", False)) not in seen:
+                seen.add((i["schema_seed"], i["size"], i["sanity"], i.get("tl2", False)))
+                plan.insert(0, ("p%d" % len(seen), i["schema_seed"], i["size"], i["sanity"], i.get("tl2", False)))
         plan = plan[:len(seen) + 1]
-    per = 12 if c.thorough else 5
+    per = 12 if c.thorough else 4
     big = c.thorough
     if c.replay:
-        per, big = (12, True) if c.replay.get("tier") == "thorough" else (5, False)    # regenerate exactly the cases of the recorded run
+        per, big = (12, True) if c.replay.get("tier") == "thorough" else (4, False)    # regenerate exactly the cases of the recorded run
     stats = {"generated": 0, "kernel_rejected": 0, "go_build_failed": 0, "tied": 0, "desc_pairs_compared": 0, "desc_wire_diffs": 0,
              "desc_soft_diffs": 0, "factory_items": 0, "unlinked_items": 0}
     feats = {}
     rejected = []
-    for sid, seed, size, sanity in plan:
-        sc, mine, g = cs.make_schema(c, sid, seed, size, sanity)
+    for sid, seed, size, sanity, tl2 in plan:
+        sc, mine, g = cs.make_schema(c, sid, seed, size, sanity, tl2=tl2)
         stats["generated"] += 1
         for k, v in g.feat.items():
             feats[k] = feats.get(k, 0) + v
-        ident = {"schema_seed": seed, "size": size, "sanity": sanity}
+        ident = {"schema_seed": seed, "size": size, "sanity": sanity, "tl2": tl2}
         kd, err = cc.export_desc(c, hcodec, sc)
         if kd is None:
             # information, not a verdict: every schema we emit is meant to be valid TL
@@ -107,7 +108,7 @@ def run(c):
             rejected.append({"sid": sid, "seed": seed, "size": size, "stage": "tl2gen/go build", "detail": msg[-600:]})
             continue
         sc.items = cc.link_items(sc)
-        c.extra.setdefault("schemas", []).append({"sid": sid, "schema_seed": seed, "size": size, "sanity": sanity, "instances": len(mine["instances"]),
+        c.extra.setdefault("schemas", []).append({"sid": sid, "schema_seed": seed, "size": size, "sanity": sanity, "tl2": tl2, "instances": len(mine["instances"]),
                                                   "kernel_instances": len(kd["instances"]), "factory_items": len(sc.items), "desc_pairs": pairs,
                                                   "combinators": text_stats(sc.text)})
         stats["factory_items"] += len(sc.items)
@@ -151,6 +152,39 @@ def run(c):
                     else:
                         c.oracle_fail(l, "generated code (== reference with the sanity guard) differs from the documented format on a valid encoding: "
                                       "generated %s, format %s" % (a[:160], dref[:160]), dict(ident, line=l, generated=a, reference=dref))
+        if tl2:
+            # ---- TL2 half: the same reference (Codec/TL2.lean, written from the TL2 primer) driven by the generator's descriptor
+            pre = [sc.desc_line()]
+            lrng = SplitMix64(seed ^ 0x2545F4914F6CDD1D)
+            l2 = cs.x2_lines(sc, lrng, per + 1, big=big)
+            res2 = cs.tie_pinpoint(c, "ref-tl1-to-tl2:" + sid, l2, sc.impl, model, pre)
+            back = {}
+            for l, a, b in res2:
+                if a != b:
+                    nbad += 1
+                    c.oracle_fail(l, "TL2 bytes written by generated code differ from the independent reference: generated %s, reference %s" % (a[:160], b[:160]),
+                                  dict(ident, line=l, generated=a, reference=b))
+                if a.startswith("ok "):
+                    w2 = dict(p.split("=", 1) for p in a.split(" ")[1:] if "=" in p).get("w2", "")
+                    f = l.split(" ")
+                    if w2 and w2 not in ("panic", "werr") and not w2.startswith("!"):
+                        back["codec.r2 %s %s %s %s" % (f[1], f[2], f[3], w2)] = l
+            # what the writer produced (sparse values: bodies that end before the next presence-mask block) must be read back the
+            # same way by generated code and reference; plus type-directed TL2 encodings in non-minimal forms and a malformed stream
+            l3 = sorted(set(back) | set(cs.r2_gen_lines(sc, lrng, 3 if big else 2, big=big)))
+            res3 = cs.tie_pinpoint(c, "ref-tl2:" + sid, l3, sc.impl, model, pre)
+            stats["tl2_tied"] = stats.get("tl2_tied", 0) + 1
+            for l, a, b in res3:
+                if a != b:
+                    nbad += 1
+                    src = back.get(l)
+                    c.oracle_fail(l, "generated TL2 reader and the independent reference disagree: generated %s, reference %s%s" % (
+                        a[:160], b[:160], (" (bytes written by generated code for `%s`)" % src[:200]) if src else ""),
+                        dict(ident, line=l, generated=a, reference=b))
+                elif l in back and a.startswith("ok "):
+                    w2 = l.split(" ")[4]
+                    n = 0 if w2 == "-" else len(w2) // 2
+                    c.count("tl2-roundtrip:" + ("exact" if a.startswith("ok %d w2=%s " % (n, w2)) else "differs"))
         for w in wire:
             key = "codec.descdiff %s %s" % (sid, w)
             if nbad:
@@ -168,8 +202,11 @@ def run(c):
     c.extra["rule"] = ("random schemas from checks/schemagen.py (own AST, own descriptor, explicit and implicit CRC32 tags); per factory item × bare/boxed: "
                        "valid TL1 encodings generated from the generator's descriptor (+random rest) and 2 malformed variants each; the Lean reference codec is "
                        "driven by the generator's descriptor, the generated Go code by tl2gen's own resolution; every disagreement is an oracle failure; "
-                       "descriptor compared with the kernel export modulo numbering; distinct = distinct case line")
+                       "descriptor compared with the kernel export modulo numbering. TL2-enabled schemas (all but every third) additionally: codec.x2 (read TL1, write TL2) on dense "
+                       "and sparse values (most fields empty; in constructors with ≥ 8 fields everything from a random cut 1..7 on is empty/absent, so bodies end "
+                       "before the next presence-mask block), then codec.r2 on every TL2 encoding the implementation wrote, on type-directed TL2 encodings "
+                       "(minimal / admissibly non-minimal, dense / cut) and 2 malformed variants each; distinct = distinct case line")
     c.trusted += ["checks/schemagen.py (schema generator with its own resolution, canonical form and CRC32)", "generic driver go/hgen over generated meta/factory",
                   "hcodec descriptor export is used only for the descriptor comparison, not by the reference"]
-    c.assumptions += ["TL1 part only: TL2 shape lemmas and the TL2 tie are added when the TL2 model lands (Props/C11.lean note)",
+    c.assumptions += ["TL2: tie only (reference = Codec/TL2.lean driven by the generator's descriptor); the TL2 shape lemmas are not written yet (Props/C11.lean note)",
                       "schemas rejected by tl2gen or failing go build are logged in evidence (schemas_skipped) and skipped"]
